@@ -50,6 +50,14 @@ pub fn term_universe(quick: bool) -> Vec<T> {
             }
         }
     }
+    // a top-level Some(..) around a compound, a list and an atom, next to the bare terms
+    for inner in [T::Cmp(Tag::Pair, vec![T::I(1), T::I(2)]), T::Cmp(Tag::Tuple, vec![T::I(1), T::I(2)]), T::Cmp(Tag::Box1, vec![T::V(0)]), T::list(vec![T::I(1)]), T::I(1)] {
+        u.push(T::Cmp(Tag::Some, vec![inner.clone()]));
+        u.push(T::Cmp(Tag::Some, vec![T::Cmp(Tag::Some, vec![inner.clone()])]));
+        u.push(T::Cmp(Tag::Pair, vec![T::Cmp(Tag::Some, vec![inner.clone()]), T::I(1)]));
+        u.push(T::Cmp(Tag::Pair, vec![inner.clone(), T::I(1)]));
+        u.push(inner);
+    }
     // an Option field of a compound struct: Some(_) and None are one Rust type
     for x in small.iter().take(4) {
         u.push(T::Cmp(Tag::Holder, vec![T::Cmp(Tag::OptSome, vec![x.clone()]), T::I(1)]));
